@@ -283,6 +283,13 @@ func newAWorld(sc *aScenario, opt aOpts) *aWorld {
 		cont = w.sinks[zz.SinkCont]
 	}
 	mc := c.Motion
+	// production settings reach the processor through NewConfig, i.e. through validateConfig: whatever it
+	// does to a legal configuration is part of the behaviour under test (the oracles use the settings as
+	// written in c.Motion). A rejection of one of the generated configurations is not expected; if a later
+	// version refuses one, the run continues with the settings as written.
+	if v := mc; validateConfig(&v) == nil {
+		mc = v
+	}
 	var motionRec recorder.Recorder = w.sinks[zz.SinkMotion]
 	if c.Thr != nil && !opt.NoThrottle {
 		motionRec = throttle.NewThrottledRecorderWithClock(w.sinks[zz.SinkMotion], c.Thr, c.MinS+c.Preview, &thrListener{w.tr}, w.clock, w.cam)
